@@ -56,9 +56,9 @@ PER_TENSOR = {"Callback", "WriteChunk", "OpenSrc", "ReleaseMap", "Invalidate", "
 # ----------------------------------------------------------------------------------------------
 # configurations
 # ----------------------------------------------------------------------------------------------
-def _cfg(nt, nc, dest="absent", backed=(), par=False, shard=False, pre=(), np=()):
+def _cfg(nt, nc, dest="absent", backed=(), par=False, shard=False, pre=(), np=(), lim=None):
     return F.norm_cfg({"nt": nt, "nc": nc, "dest": dest, "backed": list(backed), "par": par, "shard": shard,
-                       "pre": list(pre), "np": list(np)})
+                       "pre": list(pre), "np": list(np), "lim": lim})
 
 
 def all_model_configs(max_t=3, max_c=2) -> list:
@@ -74,11 +74,15 @@ def all_model_configs(max_t=3, max_c=2) -> list:
                         if par and nt < 2:
                             continue
                         out.append(_cfg(nt, nc, dest, backed, par))
-    for nt in range(2, max_t + 1):
+    for nt in range(1, max_t + 1):                      # sharded requests, as AtomicSaveMC!Sharded
         for nc in range(1, max_c + 1):
-            for mask in range(1 << nt):
-                pre = [i + 1 for i in range(nt) if mask >> i & 1]
-                out.append(_cfg(nt, nc, shard=True, pre=pre))
+            for dest, backed in (("absent", ()), ("file", ()), ("file", (1,))):
+                for k in range(1, nt + 1):
+                    base = _cfg(nt, nc, dest, backed, shard=True, lim=k * nc)
+                    ns = F.nshards(base) if F.numbered(base) else 0
+                    for mask in range(1 << ns):
+                        pre = [i + 1 for i in range(ns) if mask >> i & 1]
+                        out.append(_cfg(nt, nc, dest, backed, shard=True, lim=k * nc, pre=pre))
     return out
 
 
@@ -104,6 +108,12 @@ def sys_configs(tier: str) -> list:
         _cfg(3, 1, "absent", (), par=True),
         _cfg(2, 1, shard=True),
         _cfg(2, 1, shard=True, pre=(2,)),
+        # sharded request whose tensors all fit ONE shard (plain name): foreign file / the model's own data file
+        _cfg(2, 1, "file", (), shard=True, lim=2),
+        _cfg(2, 1, "file", (1, 2), shard=True, lim=2),
+        _cfg(2, 2, "file", (1,), shard=True, lim=4),
+        _cfg(1, 1, "absent", (), shard=True, lim=1),
+        _cfg(3, 1, "file", (1,), shard=True, lim=2, pre=()),      # 2 numbered shards beside the model's own plain file
     ]
     extra = [
         _cfg(3, 1, "file", (1, 3)),            # two tensors backed by the destination (beyond the MC bound)
@@ -123,7 +133,9 @@ def sys_configs(tier: str) -> list:
 
 def py_configs(tier: str) -> list:
     cfgs = all_model_configs()
-    extra = [_cfg(3, 1, "file", (1, 3)), _cfg(3, 2, "symlink", (2,), par=True), _cfg(3, 2, "file", (1, 2, 3))]
+    extra = [_cfg(3, 1, "file", (1, 3)), _cfg(3, 2, "symlink", (2,), par=True), _cfg(3, 2, "file", (1, 2, 3)),
+             _cfg(2, 1, "file", (1, 2), shard=True, lim=2), _cfg(3, 2, "file", (1, 2, 3), shard=True, lim=3),
+             _cfg(3, 1, "file", (1, 2, 3), shard=True, lim=2, pre=(2,))]
     if tier == "thorough":
         seen = {F.cfg_key(c) for c in cfgs + extra}
         extra += [c for c in beyond_bound_configs() if F.cfg_key(c) not in seen]
@@ -134,7 +146,7 @@ def py_configs(tier: str) -> list:
 # run -> trace record of AtomicSaveTrace
 # ----------------------------------------------------------------------------------------------
 def spec_cfg(c: dict) -> dict:
-    return {k: c[k] for k in ("nt", "nc", "dest", "backed", "par", "shard", "pre")}
+    return {k: c[k] for k in ("nt", "nc", "dest", "backed", "par", "shard", "pre", "lim")}
 
 
 def to_trace(run: dict):
@@ -194,7 +206,10 @@ def fault_of(run: dict):
 
 def cfg_kind(c: dict) -> str:
     if c["shard"]:
-        return "shard-pre" if c["pre"] else "shard"
+        one = not F.numbered(c)
+        exists = (c["dest"] != "absent") if one else bool(c["pre"])
+        return (f"shard{'1' if one else 'N'}{'-plainfile' if c['dest'] != 'absent' else ''}"
+                f"{'-backed' if c['backed'] else ''}{'-pre' if exists else ''}")
     return f"{c['dest']}{'-backed' if c['backed'] else ''}{'-par' if c['par'] else ''}"
 
 
@@ -272,7 +287,7 @@ def model_check(ctx) -> dict:
     for rec in r1.records():
         nterm += 1
         c = rec["cfg"]
-        ck = F.cfg_key(_cfg(c["nt"], c["nc"], c["dest"], c["backed"], c["par"], c["shard"], c["pre"]))
+        ck = F.cfg_key(_cfg(c["nt"], c["nc"], c["dest"], c["backed"], c["par"], c["shard"], c["pre"], lim=c["lim"]))
         if rec["obs"]["out"] == "crashed":
             pos = ("crash-after", rec["last"]["a"], rec["last"]["t"] if rec["last"]["a"] in PER_TENSOR else 0,
                    rec["last"]["j"] if rec["last"]["a"] in PER_TENSOR else 0, rec["faults"])
@@ -296,7 +311,8 @@ def model_check(ctx) -> dict:
     ctx.extra["tlc_action_coverage"] = cov
     ctx.extra["model_terminal_states"] = nterm
     ctx.extra["model_fault_positions"] = len(allowed)
-    ctx.extra["constants"] = {"MaxT": 3, "MaxC": 2, "MaxFaults": [1, 2], "configurations": len(all_model_configs())}
+    ctx.extra["constants"] = {"MaxT": 3, "MaxC": 2, "MaxFaults": [1, 2], "configurations": len(all_model_configs()),
+                              "sharded_limits": "1..nt tensors' worth of bytes (incl. one shard = plain name)"}
     return allowed
 
 
